@@ -117,7 +117,8 @@ class BuiltinMixin:
         except Unsupported:
             # a literal list of values of different types (SQL parameter lists): kept as a static sequence
             return Val(TupleT([v.ty for v in vals]), vals, was_list=True)
-        arr = z3.K(I, to_sort_term(vals[0], ety))
+        # (positions beyond the literal's length are unspecified; a constant array of a non-value is not accepted by cvc5)
+        arr = fresh("lit", z3.ArraySort(I, sort_of(ety)))
         for i, v in enumerate(vals):
             arr = z3.Store(arr, i, to_sort_term(v, ety))
         return self.new_list(ety, st, z3.IntVal(len(vals)), arr)
@@ -389,7 +390,10 @@ class BuiltinMixin:
             inner = self.to_jv(self._inner(v), st)
             none = self.to_jv(NONE_VAL, st)
             return Val(JV, z3.If(self.is_none(v, st), none.t, inner.t))
-        f = z3.Function("jv_of_" + elem_sort_name(v.ty), sort_of(v.ty), JVSort)
+        # lists and tables are references (integers): their embeddings are functions of their own, so that the embedding of
+        # the integer n and of the list whose reference happens to be n are different JSON values
+        kind = {"List": "listref", "Dict": "dictref"}.get(v.ty.name) or elem_sort_name(v.ty)
+        f = z3.Function("jv_of_" + kind, sort_of(v.ty), JVSort)
         j = f(to_sort_term(v, v.ty))
         if v.ty.name == "List":
             st.assume(z3.And(jv_is_list(j), z3.Not(jv_is_str(j))))
@@ -787,7 +791,12 @@ class BuiltinMixin:
         """The list stored as a JSON value (inverse of the embedding used when it was stored)."""
         v = args[0]
         inv = z3.Function("jv_to_Int", JVSort, I)
-        return Val(ListT(STR), inv(v.t))
+        ety = STR
+        if len(args) > 1:
+            if not (isinstance(args[1].t, str) or z3.is_string_value(args[1].t)):
+                raise Unsupported("jv_list: element type must be a literal")
+            ety = parse_type(args[1].t if isinstance(args[1].t, str) else args[1].t.as_string())
+        return Val(ListT(ety), inv(v.t))
 
     # -- millisecond alignment (specification vocabulary; single modulus keeps the arithmetic simple) ----
     def x_bi_ms_aligned(self, args, kw, st, node):
@@ -1154,6 +1163,12 @@ class BuiltinMixin:
             r = self.sqlite_method(recv, name, args, kw, st, node)
             if r is not None:
                 return r
+        if ty == JV and name == "append" and len(args) == 1 and args[0].ty.name == "Obj":
+            # a JSON value that holds a list (of objects of the argument's class): the list object it embeds.  That it is a
+            # list is an obligation (AttributeError otherwise); its elements are read under the argument's type
+            st.raise_if(z3.Not(jv_is_list(recv.t)), "AttributeError", line)
+            lst = Val(ListT(args[0].ty), z3.Function("jv_to_Int", JVSort, I)(recv.t))
+            return self.m_List_append(lst, args, kw, st, node)
         m = getattr(self, f"m_{ty.name}_{name}", None)
         if m is None and ty.name == "Obj":
             fty = None
